@@ -57,7 +57,7 @@ vr64 vs_var_ranked(const char* name, int rank);           /* variable ordered by
 vr64 vs_q(long num, long den);                            /* exact rational constant */
 vr64 vs_qstr(const char* s);                              /* "p/q" or decimal */
 vr64 vs_add(vr64 a, vr64 b); vr64 vs_sub(vr64 a, vr64 b); vr64 vs_mul(vr64 a, vr64 b); vr64 vs_div(vr64 a, vr64 b);
-int vs_is_const(vr64 a); int vs_is_zero(vr64 a);
+int vs_is_const(vr64 a); int vs_is_zero(vr64 a); int vs_is_finite_const(vr64 a);
 int vs_cmp_const(vr64 a, vr64 b);                         /* both constants: -1/0/1 */
 vr64 vs_subst(vr64 t, vr64 var, vr64 value);              /* t with var replaced by value */
 vr64 vs_diff(vr64 t, vr64 var);                           /* symbolic derivative d t / d var (real mode) */
